@@ -3,6 +3,10 @@
 cd "$(dirname "$0")/../harness" || exit 1
 R="${WW_REPO:-/repo}"
 sed "s#@REPO@#$R#g" Cargo.toml.in > Cargo.toml.new
-if ! cmp -s Cargo.toml.new Cargo.toml 2>/dev/null; then mv Cargo.toml.new Cargo.toml; else rm -f Cargo.toml.new; fi
+if ! cmp -s Cargo.toml.new Cargo.toml 2>/dev/null; then
+  # the repository path changed: artefacts built against the other tree's white-whale-std must not be reused
+  [ -f Cargo.toml ] && [ -d target ] && cargo clean >/dev/null 2>&1
+  mv Cargo.toml.new Cargo.toml
+else rm -f Cargo.toml.new; fi
 # the lock file is a copy of the repository's own lock (offline resolution), refreshed only when absent
 [ -f Cargo.lock ] || cp "$R/Cargo.lock" Cargo.lock
